@@ -1,6 +1,7 @@
 import Driver.Proto
 import XsdataModel.Wsdl.Mapper
 import XsdataModel.Wsdl.Client
+import XsdataModel.Proofs.WsdlTotal
 open Lean Proto Py Xs.Wsdl
 
 namespace OpsWsdl
@@ -140,6 +141,9 @@ def run (op : String) (a : Json) : Option (Except String Json) :=
       pure <| match mapDefinitions d with
         | .ok cs => ok (Json.arr (cs.map jCls).toArray)
         | .error e => err (String.ofList e.name)
+  | "wsdl.wf" => some do
+      let d ← definitionsOf (field a "defs")
+      pure <| ok (jBool (wfDefinitions d))
   | "wsdl.config" => some do
       let b ← extsF a "binding"; let p ← extsF a "port"; let o ← extsF a "operation"
       let cfg := operationConfig b p o
